@@ -162,3 +162,66 @@ func c22JobSlotFreed(p *core.Program, r *core.Report) {
 	}
 	r.Floor("C22/R9 functions that install a resize job", n, 1)
 }
+
+// DebugWrapNil lists errors.Wrap(err, ..) calls reached only on paths where err was tested nil.
+func DebugWrapNil(p *core.Program) {
+	for _, pk := range p.Pkgs {
+		if !strings.HasPrefix(pk.PkgPath, core.ModPath) {
+			continue
+		}
+		info := pk.TypesInfo
+		for _, fd := range core.AllFuncDecls(pk) {
+			if fd.Body == nil || strings.HasSuffix(p.Fset.Position(fd.Pos()).Filename, "_test.go") {
+				continue
+			}
+			// error variables
+			bits := map[types.Object]flow.State{}
+			bitOf := func(o types.Object) flow.State {
+				if b, ok := bits[o]; ok {
+					return b
+				}
+				if len(bits) >= 30 {
+					return 0
+				}
+				b := flow.State(1) << uint(len(bits))
+				bits[o] = b
+				return b
+			}
+			h := flow.Hooks{Info: info}
+			h.Refine = func(c ast.Expr, taken bool, s flow.State) (flow.State, bool) {
+				if obj, neq, ok := flow.IsErrNilTest(info, c); ok {
+					isNil := neq != taken
+					b := bitOf(obj)
+					if isNil {
+						return s | b, true
+					}
+					return s &^ b, true
+				}
+				return s, true
+			}
+			h.Atom = func(nd ast.Node, s flow.State) []flow.State {
+				switch x := nd.(type) {
+				case *ast.AssignStmt:
+					for _, l := range x.Lhs {
+						if id, ok := ast.Unparen(l).(*ast.Ident); ok {
+							if b, ok := bits[info.ObjectOf(id)]; ok {
+								s &^= b
+							}
+						}
+					}
+				case *ast.CallExpr:
+					g := core.CalleeOf(info, x)
+					if g != nil && g.Pkg() != nil && strings.HasSuffix(g.Pkg().Path(), "pkg/errors") && (g.Name() == "Wrap" || g.Name() == "Wrapf") && len(x.Args) > 0 {
+						if id, ok := ast.Unparen(x.Args[0]).(*ast.Ident); ok {
+							if b, ok := bits[info.ObjectOf(id)]; ok && s&b != 0 {
+								println(p.Pos(x.Pos()), core.FuncName(fd), "wraps", id.Name, "which is nil on this path")
+							}
+						}
+					}
+				}
+				return []flow.State{s}
+			}
+			flow.Run(h, fd.Body, 0)
+		}
+	}
+}
